@@ -7,8 +7,8 @@ HERE = os.path.dirname(os.path.dirname(os.path.abspath(__file__)))
 # root cause: (description, [(property, prim, mode, kind, where)])
 RC = [
  ("np.array([x, y], ndmin=3): the ndmin axes are not squeezed back for list input, so the gradient of an element has the wrong shape (reverse) and the tangent is duplicated (forward)",
-  [("C01", "array", "rev", "wrong-shape", "ndmin:True,list_input:True"), ("C05", "array", "rev", "wrong-structure", "ndmin:True,list_input:True"),
-   ("C02", "array", "fwd", "wrong-value", "ndmin:True,list_input:True")]),
+  [("C01", "array", "rev", "wrong-shape", "ndmin:True,list_input:True,argnum:0"), ("C05", "array", "rev", "wrong-structure", "ndmin:True,list_input:True,argnum:0"),
+   ("C02", "array", "fwd", "wrong-value", "ndmin:True,list_input:True,argnum:0")]),
  ("np.diag of a non-square 2-D array: the VJP np.diag(g, k) is square, not of the argument's shape",
   [("C01", "diag", "rev", "wrong-shape", "rank:2,square:False"), ("C05", "diag", "rev", "wrong-structure", "rank:2,square:False")]),
  ("np.diagonal(axis1=-1, axis2=-2) of an array whose last two dimensions differ: make_diagonal rebuilds a square block",
@@ -16,11 +16,11 @@ RC = [
    ("C05", "diagonal", "rev", "wrong-structure", "make_diagonal_supported:True,square:False")]),
  ("np.full((), x) with a (1,)-shaped fill value: gradient comes back 0-d",
   [("C05", "full", "rev", "wrong-structure", "fill:arr1"), ("C01", "full", "rev", "wrong-shape", "fill:arr1")]),
- ("np.kron with an operand of more than two dimensions: grad_kron assumes at most 2-D operands and returns silently wrong values",
-  [("C01", "kron", "rev", "wrong-value", "max_rank:~[3-9]"), ("C04", "kron", "fwd-vs-rev", "not-adjoint", "max_rank:~[3-9]")]),
+ ("np.kron whose SECOND operand has more than two dimensions: grad_kron groups the wrong axes and returns silently wrong values",
+  [("C01", "kron", "rev", "wrong-value", "ranks:~[0-9].[3-9]"), ("C04", "kron", "fwd-vs-rev", "not-adjoint", "ranks:~[0-9].[3-9]")]),
  ("np.linalg.norm(ord=inf): passes the 'ord > 1' support test and evaluates the p-norm formula with p=inf, giving NaN in both modes",
-  [("C01", "norm", "rev", "wrong-value", "ord:inf"), ("C02", "norm", "fwd", "wrong-value", "ord:inf"),
-   ("C04", "norm", "fwd-vs-rev", "not-adjoint", "ord:inf")]),
+  [("C01", "norm", "rev", "wrong-value", "ord:inf,matrix_norm:False,keepdims:None"), ("C02", "norm", "fwd", "wrong-value", "ord:inf,matrix_norm:False,keepdims:None"),
+   ("C04", "norm", "fwd-vs-rev", "not-adjoint", "ord:inf,matrix_norm:False,keepdims:None")]),
  ("np.linalg.solve with batch dimensions that broadcast between a and b: gradients are not summed back to the operand's shape",
   [("C01", "solve", "rev", "wrong-shape", "batch_broadcast:True"), ("C05", "solve", "rev", "wrong-structure", "batch_broadcast:True"),
    ("C01", "solve", "rev", "wrong-value", "batch_broadcast:True,rhs_vector:True")]),
